@@ -293,7 +293,7 @@ func runLabProp(c *drv.Ctx, lp *LabProp) error {
 		var firstPt *Point
 		nMis := 0
 		for _, pt := range pts {
-			if pt.Ref.Budget {
+			if pt.Ref.Budget || pt.Ref.Unspecified {
 				budgetSkipped++
 				continue
 			}
